@@ -57,7 +57,15 @@ func (o oneRead) Read(p []byte) (int, error) { return o.r.Read(p) }
 
 // rendering helpers: results are compared as rendered strings (order-free where the core is order-free)
 func rOK(v interface{}, err error) string { return fmt.Sprintf("%s|err=%v", dump(v), err != nil) }
-func rBytes(b []byte, err error) string   { return fmt.Sprintf("%s|err=%v", b, err != nil) }
+func rBytes(b []byte, err error) string {
+	if c20RetainHook != nil {
+		c20RetainHook(b) // the byte slice stays with the caller: later calls must leave it alone
+	}
+	return fmt.Sprintf("%s|err=%v", b, err != nil)
+}
+
+var c20RetainHook func(b []byte)
+
 func rSet(v []interface{}, err error) string {
 	return fmt.Sprintf("%v|err=%v", sortedCopy(dumpSeq(v)), err != nil)
 }
@@ -75,6 +83,8 @@ func segs(p string) int {
 // c20Pair runs one wrapper function and its documented core composition on the same input.
 func c20Pair(c *Ctx, k c20Case, choices []int) (nontrivial bool) {
 	k.Pol = rt.OrderPolicy
+	c20RetainHook = func(b []byte) { c.Retain(k.Fn, b, func() interface{} { return k }) }
+	defer func() { c20RetainHook = nil }()
 	xb, jb := []byte(k.Xml), []byte(k.Json)
 	var w, core string
 	xmlMap := func(cast ...bool) (mxj.Map, error) { return mxj.NewMapXml(xb, cast...) }
@@ -625,7 +635,7 @@ func c20Walkers(c *Ctx, m map[string]interface{}, fn, key, path string, flag boo
 
 func c20Run(c *Ctx) {
 	mustBeDefault(c)
-	c.S.Rule = "part 1 (wrappers = documented composition of core calls): every exported function of j2x (17), x2j (17) and the conversion/reader functions of x2j-wrapper (16) x documents (XML: all element trees with <= 3 elements with <= 1 decoration, plus malformed inputs; JSON: Map templates with <= 4 nodes incl. special characters, plus malformed inputs) x keys {a,b,k,z,*} / paths of <= 2 steps / sub-key sets / key pairs / flags (safe encoding, recast) - wrapper result and error-ness must equal the composition executed on the same build in the same option state. part 2 (x2j-wrapper's own walkers): every Map template with <= N nodes over keys {a,k,-x} x keys / wildcard paths of <= 3 steps x getAttrs: PathsForKey = Map.PathsForKey as sets, PathForKeyShortest a member of equal length, ValuesFromKeyPath = reference walk with attribute entries excluded at wildcard steps unless requested (= Map.ValuesForPath when requested), ValuesAtKeyPath = the parent-level values iff one has the key. Ascending/descending map order; E-choice bound 1 on the walkers for small Maps. non-trivial = non-empty result."
+	c.S.Rule = "part 1 (wrappers = documented composition of core calls): every exported function of j2x (17), x2j (17) and the conversion/reader functions of x2j-wrapper (16) x documents (XML: all element trees with <= 3 elements with <= 1 decoration, plus malformed inputs; JSON: Map templates with <= 4 nodes incl. special characters, plus malformed inputs) x keys {a,b,k,z,*} / paths of <= 2 steps / sub-key sets / key pairs / flags (safe encoding, recast) - wrapper result and error-ness must equal the composition executed on the same build in the same option state. part 2 (x2j-wrapper's own walkers): every Map template with <= N nodes over keys {a,k,-x} x keys / wildcard paths of <= 3 steps x getAttrs: PathsForKey = Map.PathsForKey as sets, PathForKeyShortest a member of equal length, ValuesFromKeyPath = reference walk with attribute entries excluded at wildcard steps unless requested (= Map.ValuesForPath when requested), ValuesAtKeyPath = the parent-level values iff one has the key. plus the sibling family {top:[M1,M2]} (Mi every map template with <= 4 nodes over {a,k}). Byte results of wrappers and compositions are retained and re-checked after later calls. Ascending/descending map order; E-choice bound 1 on the walkers for small Maps. non-trivial = non-empty result."
 	c.S.Assumptions = []string{"x2j-wrapper ToJson/ToJsonIndent marshal with encoding/json directly (safe encoding), as their source documents", "MapValue/DocValue/ValuesForKey of x2j-wrapper have no core counterpart with equal semantics and are covered by C15 (totality) only"}
 	// ---- documents
 	var xmls []string
@@ -789,5 +799,29 @@ func c20Run(c *Ctx) {
 			}
 		}
 	})
+	// sibling family: a list of two small maps under one key (what repeated XML elements decode to): members
+	// that hold the key at different depths, in either order - beyond the node bound of the plain enumeration
+	gs := newGen(GenP{Keys: []string{"a", "k"}, MaxList: 2, MaxKeys: 2, EmptyList: false, EmptyMap: true, ListInList: false})
+	var sibs []*T
+	gs.values(4, func(t *T) {
+		if t.Kind == 'M' {
+			sibs = append(sibs, t)
+		}
+	})
+	for _, m1 := range sibs {
+		for _, m2 := range sibs {
+			for _, top := range []string{"a", "k"} {
+				t := &T{Kind: 'M', Keys: []string{top}, Kids: []*T{{Kind: 'L', Kids: []*T{m1, m2}}}}
+				for _, key := range []string{"a", "k"} {
+					walker(t, 99, "x2jw.PathsForKey", key, "", false)
+					walker(t, 99, "x2jw.PathForKeyShortest", key, "", false)
+				}
+				for _, p := range []string{top + ".a", top + ".k", top + ".*", top + ".a.k", top + ".*.k", "*.k", "*.*.k", top + ".a.a"} {
+					walker(t, 99, "x2jw.ValuesFromKeyPath", "", p, false)
+					walker(t, 99, "x2jw.ValuesAtKeyPath", "", p, false)
+				}
+			}
+		}
+	}
 	resetOptions()
 }
